@@ -27,10 +27,12 @@ META = {
                  'robust-acceptance invariant under every merge the generator performs) on a hand-written Gallina model of '
                  'wizard_cli/schema.py + cli.py, + differential correspondence with the implementation (generated source exec\'d and fed its own source document)',
     'design_ref': 'DESIGN.md section 4 C19',
-    'theorems': ['C19_append_idem', 'C19_append_mem', 'C19_append_perm', 'C19_or_keeps_optional', 'C19_or_accepts', 'C19_or_accepts_refuted',
-                 'C19_loads', 'C19_loads_refuted_F14b', 'C19_loads_refuted_F14d', 'C19_loads_refuted_F14e', 'C19_loads_refuted_F14f',
-                 'C19_names_resolve', 'C19_wellformed', 'C19_wellformed_refuted_F14c', 'C19_deterministic',
-                 'C19_cli_atomic_refuted', 'C19_cli_atomic_partial', 'C19_cli_valid_writes', 'C19_tables'],
+    'theorems': ['C19_append_idem', 'C19_append_mem', 'C19_append_perm', 'C19_or_keeps_optional', 'C19_or_accepts',
+                 'C19_or_accepts_refuted', 'C19_loads', 'C19_loads_refuted_F14b', 'C19_loads_refuted_F14d',
+                 'C19_loads_refuted_F14e', 'C19_loads_refuted_F14f', 'C19_wellformed', 'C19_names_resolve',
+                 'C19_wellformed_refuted_F14c', 'C19_names_refuted_F14g', 'C19_deterministic',
+                 'C19_cli_atomic_refuted', 'C19_cli_atomic_partial', 'C19_cli_valid_writes', 'C19_tables',
+                 'C19_bool_values_model'],
     'tables': ['SchemaTables'],
     'level_text': ('Theorems proved in Coq for ALL JSON documents (any depth/width) and both flag settings about an executable model of the '
                    'generator: every document inside the decidable region schema_safe is loaded by the inferred root (C19_loads), every class '
@@ -196,7 +198,7 @@ def depth_of(v):
 
 def gen_docs(ctx):
     r = ctx.sub_rng('docs')
-    n = 230 if ctx.tier == 'quick' else 2600
+    n = 450 if ctx.tier == 'quick' else 2600
     docs = [(d, 'fixed') for d in FIXED_DOCS]
     while len(docs) < n:
         t = r.random()
@@ -355,7 +357,7 @@ def name_collision(decls):
 
 
 # which failure stage each finding can explain
-EXPLAINS = {'gen': {'F14c'}, 'fields': {'F14c'}, 'exec': {'F14c', 'F14g', 'F14k'},
+EXPLAINS = {'gen': {'F14c'}, 'fields': {'F14c', 'F14g'}, 'exec': {'F14c', 'F14g', 'F14k'},
             'load': {'F14b', 'F14d', 'F14e', 'F14f', 'F14g', 'F14h', 'F14i', 'F14j', 'F14k'}}
 
 
@@ -557,6 +559,10 @@ def run(ctx):
 
     # ---- per case: direct predicate, classification, correspondence
     n_dis = 0
+    candidates = []      # (what, replay_obj): confirmed in a fresh interpreter before they are reported
+
+    def candidate(what, obj):
+        candidates.append((what, obj))
     for ci, (c, res) in enumerate(zip(cases, results)):
         d, kind = docs[c['i']]
         fs, ex = c['fs'], c['ex']
@@ -581,8 +587,8 @@ def run(ctx):
                 for f in explained[:1]:
                     ctx.hist('known_region', f)
             else:
-                ctx.violation('%s; document %s (force_strings=%s experimental=%s), regions=%s'
-                              % (bad[1], json.dumps(d)[:300], fs, ex, sorted(regs)), replay_obj)
+                candidate('%s; document %s (force_strings=%s experimental=%s), regions=%s'
+                          % (bad[1], json.dumps(d)[:300], fs, ex, sorted(regs)), replay_obj)
         # correspondence with the model
         if model is not None:
             m = model[c['i'] * 2 + (1 if fs else 0)].split('|')
@@ -606,12 +612,30 @@ def run(ctx):
                 ctx.hist('accepts_vs_loads', '%s/%s' % ('acc' if m_accepts else 'rej', 'loads' if loads else 'fails'))
                 # the theorem's instance on the implementation: schema_safe j -> generated root loads j
                 if m_safe and bad is not None:
-                    ctx.violation('document inside schema_safe (C19_loads) but the implementation fails: %s; %s (fs=%s ex=%s)'
-                                  % (bad[1], json.dumps(d)[:300], fs, ex), replay_obj)
+                    candidate('document inside schema_safe (C19_loads) but the implementation fails: %s; %s (fs=%s ex=%s)'
+                              % (bad[1], json.dumps(d)[:300], fs, ex), replay_obj)
             else:
                 ctx.hist('gen_raises', res['gen']['err'])
                 if m_safe:
                     ctx.violation('document inside schema_safe but generation raises %s: %s' % (res['gen']['err'], json.dumps(d)[:300]), replay_obj)
+    # a failing case is reported only if it also fails alone in a fresh interpreter (no cross-talk
+    # between the hundreds of generated modules of one batch); if it passes alone, the batch run
+    # depended on earlier generations, which is itself a violation when the generated text differs
+    seen = set()
+    for what, obj in candidates:
+        key = json.dumps(obj, sort_keys=True)
+        if key in seen or len(seen) >= 25:
+            continue
+        seen.add(key)
+        alone = ctx.impl('c19', {'cases': [{'doc': obj['doc'], 'fs': obj['fs'], 'ex': obj['ex']}]})['cases'][0]
+        if direct_predicate(alone) is not None:
+            ctx.violation(what, obj)
+        else:
+            ctx.notes.append('case failed inside a batch but passes in a fresh interpreter: %s' % what[:300])
+            batch_sha = [r.get('sha') for c, r in zip(cases, results)
+                         if c['doc'] == obj['doc'] and c['fs'] == obj['fs'] and c['ex'] == obj['ex']]
+            if batch_sha and batch_sha[0] != alone.get('sha'):
+                ctx.violation('generated text depends on earlier generations in the same process: ' + what, dict(obj, kind='order'))
     for c, res in list(zip(cases, results))[:2]:
         ctx.sample({'doc': c['doc'], 'force_strings': c['fs'], 'experimental': c['ex'],
                     'decls': res.get('decls'), 'load': res.get('load')})
